@@ -283,7 +283,7 @@ PROPS = {
     },
     "C12": {
         "obligations": [ob_c12_excluded],
-        "proofs": ["ZlProofs.Props.C12", "ZlProofs.Props.C10"],  # C10: registry_readers_readonly (listing and lookups are reads of one state, not caches of it)
+        "proofs": ["ZlProofs.Props.C12", "ZlProofs.Props.C13", "ZlProofs.Props.C10"],  # C13: "a known source" — every source a registered lint carries is one both source decoders accept (listed_sources_accepted)  # C10: registry_readers_readonly (listing and lookups are reads of one state, not caches of it)
         "corr": ["filter", "regseq"],
         "search": ["meta"],
         "trusted_base": TB_COMMON,
